@@ -260,4 +260,95 @@ def chain19 (d : Dict) : Option Dict := conv_19_20 d >>= conv_20_21
 def chain12_18 (d : Dict) : Option Dict :=
   conv_12_13 d >>= conv_13_14 >>= conv_14_15 >>= conv_15_16 >>= conv_16_17 >>= conv_17_18
 
+/-! ### the older integer formats 5 … 9 (kept apart from `conv`: 7→8 and 8→9 do touch the request) -/
+
+/-- `c[new] = c.pop(old)` (KeyError if absent) -/
+def renameStrict (c : Dict) (old new : Bytes) : Option Dict :=
+  (dget c old).map (fun v => dset (dpop c old) new v)
+
+/-- apply `f` to `server_conn.via` when it is truthy -/
+def viaUpd (d : Dict) (f : Dict → Option Dict) : Option Dict := do
+  let sc ← (dget d (s "server_conn")).bind asDict
+  let via ← dget sc (s "via")
+  if truthy via then dupd d (s "server_conn") (fun sc => dupd sc (s "via") f) else pure d
+
+def sslToTls (c : Dict) : Option Dict :=
+  (renameStrict c (s "ssl_established") (s "tls_established")).bind
+    (fun c => renameStrict c (s "timestamp_ssl_setup") (s "timestamp_tls_setup"))
+
+def conv_5_6 (d : Dict) : Option Dict := do
+  let d := setVersion d 6
+  let d ← dupd d (s "client_conn") sslToTls
+  let d ← dupd d (s "server_conn") sslToTls
+  viaUpd d sslToTls
+
+def conv_6_7 (d : Dict) : Option Dict :=
+  dupd (setVersion d 7) (s "client_conn") (fun c => pure (dset c (s "tls_extensions") .null))
+
+/-- `if name in d and d[name] is not None: d[name]["trailers"] = None` -/
+def trailersNull (d : Dict) (name : Bytes) : Option Dict :=
+  match dget d name with
+  | none => some d
+  | some .null => some d
+  | some (.dict r) => some (dset d name (.dict (dset r (s "trailers") .null)))
+  | some _ => none                                            -- item assignment on int/str/bytes/list: TypeError
+
+def conv_7_8 (d : Dict) : Option Dict :=
+  (trailersNull (setVersion d 8) (s "request")).bind (fun d => trailersNull d (s "response"))
+
+/-- the request part of 8→9: the new top-level dict and the popped `is_replay` (default `False`) -/
+def req89 (d : Dict) : Option (Dict × Value) :=
+  match dget d (s "request") with
+  | none => some (d, .bool false)
+  | some (.dict r) =>
+    if dhas r (s "first_line_format") then
+      let r1 := dset (dpop r (s "first_line_format")) (s "authority") (.bytes [])
+      some (dset d (s "request") (.dict (dpop r1 (s "is_replay"))), (dget r1 (s "is_replay")).getD (.bool false))
+    else none                                                 -- KeyError
+  | some _ => none                                            -- AttributeError: no .pop
+
+def resp89 (d : Dict) : Option (Dict × Value) :=
+  match dget d (s "response") with
+  | none => some (d, .bool false)
+  | some .null => some (d, .bool false)
+  | some (.dict r) => some (dset d (s "response") (.dict (dpop r (s "is_replay"))), (dget r (s "is_replay")).getD (.bool false))
+  | some _ => none
+
+def conv_8_9 (d : Dict) : Option Dict := do
+  let (d, rq) ← req89 (setVersion d 9)
+  let (d, rs) ← resp89 d
+  pure (dset d (s "is_replay") (if truthy rq then .str (s "request") else if truthy rs then .str (s "response") else .null))
+
+def oneOrNull (v : Value) : Value := if truthy v then .list [v] else .null
+def oneOrEmpty (v : Value) : Value := if truthy v then .list [v] else .list []
+
+def convConn9 (c : Dict) : Option Dict := do
+  let c := dset (dset c (s "state") (.int 0)) (s "error") .null
+  let te ← dget c (s "tls_established")
+  let c := dset c (s "tls") te
+  let alpn ← dget c (s "alpn_proto_negotiated")
+  let c := dset c (s "alpn_offers") (oneOrNull alpn)
+  let cipher ← dget c (s "cipher_name")
+  pure (dset c (s "cipher_list") (oneOrNull cipher))
+
+def convCConn9 (c : Dict) : Option Dict :=
+  let c1 := dset c (s "sockname") (.list [.str [], .int 0])
+  convConn9 (dset (dpop c1 (s "clientcert")) (s "certificate_list") (oneOrEmpty ((dget c1 (s "clientcert")).getD .null)))
+
+def convSConn9 (c : Dict) : Option Dict :=
+  let c1 := dset (dpop c (s "cert")) (s "certificate_list") (oneOrEmpty ((dget c (s "cert")).getD .null))
+  convConn9 (dset (dset c1 (s "cipher_name") .null) (s "via2") .null)
+
+def conv_9_10 (d : Dict) : Option Dict := do
+  let d := setVersion d 10
+  let d ← dupd d (s "client_conn") convCConn9
+  let d ← dupd d (s "server_conn") convSConn9
+  viaUpd d convSConn9
+
+/-- the older converters modelled here, by the version they read -/
+def convOld (v : Nat) : Option (Dict → Option Dict) :=
+  match v with
+  | 5 => some conv_5_6 | 6 => some conv_6_7 | 7 => some conv_7_8 | 8 => some conv_8_9 | 9 => some conv_9_10
+  | _ => none
+
 end MitmVerif.C38Conv
